@@ -314,9 +314,12 @@ impl ParallelCacheState {
         let (transition, changed_slots) = {
             // If it is marked as selfdestructed inside revm
             // we need to changed state to destroyed.
+            // The three branches that clear cached storage hold the account entry while doing so;
+            // see `ParallelStateView::db_storage` for the reader they are serialised with.
             if is_destructed {
+                let mut cached = self.get_account_mut(address);
                 self.storage.remove(&address);
-                return self.get_account_mut(address).selfdestruct();
+                return cached.selfdestruct();
             }
 
             // Note: it can happen that created contract get selfdestructed in same block
@@ -329,9 +332,11 @@ impl ParallelCacheState {
             // is not possible because CREATE2 is introduced later.
             if is_created {
                 let info = account.info;
-                self.storage.remove(&address);
-                let (transition, changed_slots) =
-                    self.get_account_mut(address).newly_created(info.clone(), changed_storage);
+                let (transition, changed_slots) = {
+                    let mut cached = self.get_account_mut(address);
+                    self.storage.remove(&address);
+                    cached.newly_created(info.clone(), changed_storage)
+                };
                 self.contracts.entry(info.code_hash).or_insert_with(|| info.code.clone().unwrap());
                 (Some(transition), Some(changed_slots))
             }
@@ -343,9 +348,10 @@ impl ParallelCacheState {
             // pre-existing empty accounts are unmarked as touched. Therefore, an account that
             // reaches the commit layer as touched, empty, and not created must be cleared.
             else if is_empty {
-                self.storage.remove(&address);
                 drop(changed_storage);
-                (self.get_account_mut(address).touch_empty_eip161(), None)
+                let mut cached = self.get_account_mut(address);
+                self.storage.remove(&address);
+                (cached.touch_empty_eip161(), None)
             } else {
                 let (transition, changed_slots) =
                     self.get_account_mut(address).change(account.info, changed_storage);
@@ -593,6 +599,18 @@ impl<'a, DB: DatabaseRef> ParallelStateView<'a, DB> {
         };
         #[cfg(grevm_verif)]
         crate::verif::sched_point("cache.slot.insert");
+        // A commit that destroys, re-creates or empty-touches the account clears its cached slots.
+        // If it lands between the fetch above and the insert below, inserting the fetched
+        // (pre-commit) value would resurrect it for every later reader of the state. The account
+        // entry guard serialises this check-and-insert with such a commit, which changes the
+        // account status and clears the slots under the same guard.
+        let account_guard = (!is_storage_known).then(|| self.cache.accounts.entry(address));
+        if let Some(Entry::Occupied(account)) = &account_guard &&
+            (account.get().status.is_storage_known() || account.get().account.is_none())
+        {
+            // The fetched value belongs to the state before that commit; do not cache it.
+            return Ok(value);
+        }
         let value = if let Some(slots) = self.cache.storage.get(&address) {
             *slots.entry(index).or_insert(value).value()
         } else {
@@ -603,6 +621,7 @@ impl<'a, DB: DatabaseRef> ParallelStateView<'a, DB> {
                 }
             }
         };
+        drop(account_guard);
         Ok(value)
     }
 
